@@ -169,6 +169,33 @@ theorem unlock_only_finished_synchronizations (hooks : List Hook) (s : St) (ms :
       (∀ m ∈ merged, m.hook = t.hook ∧ m.typ = .hookRun) ∧ ms = (t :: merged).flatMap (·.mons) :=
   unlock_shape stopFact hooks s ms h
 
+/-! Neither `taskHandleEnableKubernetesBindings` nor the glue `HookController.HandleEnableKubernetesBindings`
+nor `EnableKubernetesBindings` itself lets Events through (regenerated from the three functions): enabling a
+binding starts its monitor locked, whatever the options of the binding (`waitForSynchronization`, queue, …)
+say — the step machine's `enableKube` iteration has no `unlock`, see `enable_iteration_never_unlocks`. -/
+theorem enable_never_unlocks_fact : Facts.c06EnableUnlocks = false := rfl
+
+/-- **the enabling itself never unlocks.** In every state of the worker an iteration whose head task is not a
+`HookRun` — an `EnableKubernetesBindings` attempt (failed or successful, with any fault sequence, for bindings
+of any configuration) or `EnableScheduleBindings` — writes no `unlock`: between the enabling of a binding and
+the success/skip of its Synchronization task no Event of the binding is let through. -/
+theorem enable_iteration_never_unlocks (hooks : List Hook) (s : St) (t : Task) (rest : List Task)
+    (hq : s.queue = t :: rest) (ht : t.typ ≠ .hookRun) (ms : List Nat) :
+    Ev.unlock ms ∉ (step stopFact hooks s).log.drop s.log.length := by
+  intro h
+  obtain ⟨t', merged, htyp, hq', _, _⟩ := unlock_only_finished_synchronizations hooks s ms h
+  rw [hq] at hq'
+  have : t = t' := by injection hq'
+  exact ht (this ▸ htyp)
+
+/-- non-vacuity: the successful enabling of two bindings queues both Synchronization tasks and writes
+`enableKube` only; the first unlock is the one behind the first Synchronization. -/
+example :
+    let h : Hook := { name := 1, v1 := true, onStartup := none, sched := false, kube := [⟨1, 0, true⟩, ⟨2, 0, true⟩] }
+    let s1 := runFuel stopFact [h] 1 (initSt [h] (fun _ => []))
+    s1.log = [.enableKube 1] ∧ s1.queue = [syncTask 1 ⟨1, 0, true⟩, syncTask 1 ⟨2, 0, true⟩] ∧
+    (runFuel stopFact [h] 1 s1).log = [.enableKube 1, .exec 1 false [.sync 1 0], .unlock [1]] := by decide
+
 theorem syncTask_own_monitor (h : Nat) (b : KBinding) :
     (syncTask h b).mons = [b.name] ∧ (syncTask h b).ctxs = [.sync b.name b.group] ∧ (syncTask h b).hook = h :=
   ⟨rfl, rfl, rfl⟩
